@@ -15,7 +15,7 @@ fn plans(_t: Tier) -> Vec<&'static str> {
 }
 
 fn alphabet(_plan: &str, _v: &str, _t: Tier) -> Alphabet {
-    Alphabet { sizes: vec![40, 81920], sems: vec![Sem::Default], gc_kinds: vec![false, true], bursts: vec![], align_bursts: false, eph_chains: vec![], two_mutators: true, pins: false, cross_writes: true, fields: 1 }
+    Alphabet { sizes: vec![40, 81920], sems: vec![Sem::Default], gc_kinds: vec![false, true], bursts: vec![], refused_allocs: false, align_bursts: false, eph_chains: vec![], two_mutators: true, pins: false, cross_writes: true, fields: 1 }
 }
 
 fn depth(plan: &str, _v: &str, t: Tier) -> usize {
